@@ -11,6 +11,7 @@ import (
 	"fmt"
 	"reflect"
 	"sort"
+	"strings"
 
 	"github.com/cosmos/cosmos-sdk/crypto/keys/secp256k1"
 	"github.com/cosmos/cosmos-sdk/simapp"
@@ -53,12 +54,21 @@ func newCast() *Cast {
 		a := sdk.AccAddress(pk.PubKey().Address())
 		c.Priv[n] = pk
 		c.Addr[n] = a
+		// "<name>^": the same account with its address spelled in upper-case bech32 (legal, decodes to the same bytes)
+		c.Priv[n+"^"] = pk
+		c.Addr[n+"^"] = a
+		c.Name[strings.ToUpper(a.String())] = n + "^"
 		c.Name[a.String()] = n
 	}
 	return c
 }
 
-func (c *Cast) S(n string) string { return c.Addr[n].String() }
+func (c *Cast) S(n string) string {
+	if strings.HasSuffix(n, "^") {
+		return strings.ToUpper(c.Addr[n].String())
+	}
+	return c.Addr[n].String()
+}
 
 // GenesisParams are ordinary chain parameters set through genesis.
 type GenesisParams struct {
